@@ -121,6 +121,11 @@ def cases(tier, seed):
         d.update({"fields": ["temp", "density", "Z", "Zvar"], "payload": "pos" if vi % 2 else "signed", "layout": lay, "seed": seed})
         out.append({"kind": "user", "desc": d, "full": vi == 0 or tier == "thorough", "schedules": vi in (0, len(variants) - 1, len(variants) // 2),
                     "w": 6 if vi == 0 else 1})
+    # level directories named otherwise than Level_k
+    d = dict(m)
+    d.update(geo)
+    d.update({"fields": ["temp", "density", "Z", "Zvar"], "payload": "signed", "layout": variants[1], "seed": seed, "levelprefix": "Lev_"})
+    out.append({"kind": "user", "desc": d, "full": False, "schedules": False, "w": 3})
     # seven levels towards the far corner, twelve fields: FAB header lines longer than 100 bytes in input and output
     d = dict(scope.deep_corner_mesh())
     d.update(geo)
